@@ -117,6 +117,18 @@ def sheet_rows(txs, asset, layout, structure=None):
             if sel:
                 rows.append(row_values(sel[0], asset, layout))
             rows.append(["TABLE END"] + [None] * (w - 1))
+    rep = structure.get("repeat_end")
+    if rep:
+        # a second table of a type that was already filled, after every other table has been closed
+        sel = [t for t in txs if t["tab"] == rep]
+        rows.append([None] * w)
+        rows.append([rep] + [None] * (w - 1))
+        hdr = [None] * w
+        hdr[0] = "header"
+        rows.append(hdr)
+        if sel:
+            rows.append(row_values(sel[-1], asset, layout))
+        rows.append(["TABLE END"] + [None] * (w - 1))
     return rows
 
 
